@@ -51,6 +51,9 @@ type c13Net struct {
 	// hook runs (unlocked) at the start of every transport Read (op 'r') / Write (op 'w') of a side
 	// with the number of earlier calls of that kind on that side
 	hook func(side int, op byte, k int)
+	// lastCCS: (datagram transport) the last datagram of each side that carried a cleartext
+	// ChangeCipherSpec record, for re-delivery (a duplicate of the sender's final flight)
+	lastCCS [2][]byte
 }
 
 type c13End struct {
@@ -167,6 +170,19 @@ func (e *c13End) write(p []byte) (int, error) {
 		}
 		n.cond.Wait()
 	}
+	if !e.stream {
+		for d := p; len(d) >= 13; {
+			l := int(d[11])<<8 | int(d[12])
+			if 13+l > len(d) {
+				break
+			}
+			if d[0] == 20 && d[3] == 0 && d[4] == 0 {
+				n.lastCCS[e.idx] = append([]byte(nil), p...)
+				break
+			}
+			d = d[13+l:]
+		}
+	}
 	o := n.ends[1-e.idx]
 	if o.closed {
 		if e.stream {
@@ -227,7 +243,7 @@ func (a c13Addr) String() string  { return string(a) }
 
 type c13Actor struct {
 	Side  int    `json:"side"`
-	Kind  string `json:"kind"`            // hs | writer | reader | state | deadline | closer
+	Kind  string `json:"kind"`            // hs | writer | reader | state | deadline | closer | dupflight (datagram stack: the side's last datagram with a ChangeCipherSpec is delivered to the peer again, N times)
 	Trig  string `json:"trig"`            // "t<µs>" after start, "w<k>" / "r<k>": when the side's k-th transport write / read begins
 	Sizes []int  `json:"sizes,omitempty"` // writer: payload size of each Write
 	Buf   int    `json:"buf,omitempty"`   // reader: buffer size
@@ -255,6 +271,8 @@ type c13Case struct {
 	// EarlyClose (duplex, stream calls): 1+side: that side calls Close as soon as its own writers are
 	// done, while the peer's readers may still be behind; the peer must still receive everything
 	EarlyClose int `json:"early_close,omitempty"`
+	// SlowWrites: every transport write of that side takes this many microseconds (a slow link)
+	SlowWrites [2]int `json:"slow_writes,omitempty"`
 	Actors   []c13Actor `json:"actors"`
 }
 
@@ -376,6 +394,8 @@ func c13Run(c c13Case) (sig, msg string) {
 		}
 		if us := slow[t]; us > 0 {
 			time.Sleep(time.Duration(us) * time.Microsecond)
+		} else if op == 'w' && c.SlowWrites[side] > 0 {
+			time.Sleep(time.Duration(c.SlowWrites[side]) * time.Microsecond)
 		} else if c.YieldPct > 0 {
 			x := vfHash(c.Seed, atomic.AddUint64(&jit, 1))
 			if int(x%100) < c.YieldPct {
@@ -531,9 +551,29 @@ func c13Run(c c13Case) (sig, msg string) {
 							return
 						}
 					}
+				case "dupflight":
+					for i := 0; i < a.N; i++ {
+						nw.mu.Lock()
+						d := nw.lastCCS[a.Side]
+						o := nw.ends[1-a.Side]
+						if d != nil && !o.closed {
+							o.q = append(o.q, append([]byte(nil), d...))
+							nw.cond.Broadcast()
+						}
+						nw.mu.Unlock()
+						nw.tick()
+						time.Sleep(time.Millisecond)
+					}
 				case "state":
+					wasComplete := false
 					for i := 0; i < a.N; i++ {
 						st := conn.ConnectionState()
+						if wasComplete && !st.HandshakeComplete {
+							rmu.Lock()
+							res.stateBad = "ConnectionState reported HandshakeComplete=true and later HandshakeComplete=false on the same connection"
+							rmu.Unlock()
+						}
+						wasComplete = wasComplete || st.HandshakeComplete
 						if st.HandshakeComplete && (st.CipherSuite != c.Suite || st.Version != c13Version) {
 							rmu.Lock()
 							res.stateBad = fmt.Sprintf("ConnectionState reports a complete handshake with suite %#04x version %#04x (negotiated %#04x)", st.CipherSuite, st.Version, c.Suite)
@@ -543,6 +583,9 @@ func c13Run(c c13Case) (sig, msg string) {
 							rmu.Lock()
 							res.stateBad = "ConnectionState reports a complete handshake without the server's certificates"
 							rmu.Unlock()
+						}
+						if a.N > 50 {
+							time.Sleep(100 * time.Microsecond) // a long-running poller
 						}
 						runtime.Gosched()
 					}
@@ -1070,6 +1113,16 @@ func c13GenDuplex(t *rapid.T) c13Case {
 			c.Actors = append(c.Actors, c13Actor{Side: side, Kind: "reader", Trig: c13GenTrig(t, 9), Buf: buf})
 		}
 	}
+	// datagram stack: duplicates of a side's final flight arrive after the handshake, over a slow link,
+	// while the application keeps asking for the connection state
+	if c13Datagram && !c.Fail && rapid.IntRange(0, 2).Draw(t, "dupflight") == 0 {
+		side := rapid.IntRange(0, 1).Draw(t, "dupSide")
+		c.Actors = append(c.Actors, c13Actor{Side: side, Kind: "dupflight", Trig: fmt.Sprintf("t%d", rapid.IntRange(15000, 80000).Draw(t, "dupAt")), N: rapid.IntRange(1, 6).Draw(t, "ndup")})
+		c.SlowWrites[1-side] = rapid.SampledFrom([]int{0, 500, 2000, 5000}).Draw(t, "slowWrites")
+		for s2 := 0; s2 < 2; s2++ {
+			c.Actors = append(c.Actors, c13Actor{Side: s2, Kind: "state", Trig: fmt.Sprintf("t%d", rapid.IntRange(10000, 60000).Draw(t, "stateAt")), N: rapid.IntRange(100, 400).Draw(t, "nstate")})
+		}
+	}
 	// early close: a side whose peer writes nothing may close as soon as its own writers are done
 	if !c.Dgram && !c.Fail {
 		w := [2]int{}
@@ -1183,6 +1236,12 @@ func c13Class(c c13Case) []string {
 	}
 	if c.EarlyClose > 0 {
 		cl = append(cl, "early-close")
+	}
+	for _, a := range c.Actors {
+		if a.Kind == "dupflight" {
+			cl = append(cl, "duplicate-final-flight")
+			break
+		}
 	}
 	return cl
 }
